@@ -8,7 +8,11 @@ import fcntl, hashlib, json, os, re, shutil, subprocess, sys, time
 VERIF = os.path.dirname(os.path.dirname(os.path.abspath(__file__)))
 REPO = os.environ.get("VERIF_REPO", "/repo")
 WORK = os.path.join(VERIF, "work")
-COQ = os.path.join(VERIF, "coq")
+COQ_SRC = os.path.join(VERIF, "coq")
+# a scratch tree (VERIF_REPO=/tmp/wt-x) gets its own harness module copy, overlay and binaries
+RTAG = "" if os.path.realpath(REPO) == "/repo" else "-" + hashlib.sha1(os.path.realpath(REPO).encode()).hexdigest()[:8]
+# the Coq development is built in place for /repo and in a private copy (because of Gen.v) for a scratch tree
+COQ = COQ_SRC if not RTAG else os.path.join(WORK, "coq" + RTAG)
 GOENV = dict(os.environ, GOFLAGS="-mod=mod", GOPROXY="off", GOSUMDB="off", GOTOOLCHAIN="local",
              CGO_ENABLED=os.environ.get("CGO_ENABLED", "1"))
 FORBIDDEN = re.compile(r"\b(Admitted|admit|Axiom|Parameter|Conjecture|bypass_check)\b|Unset Guard|type-in-type|impredicative-set|Admit Obligations")
@@ -44,7 +48,7 @@ def seed():
 # ---------------------------------------------------------------- Coq
 def grep_forbidden():
     bad = []
-    for root, _, files in os.walk(COQ):
+    for root, _, files in os.walk(COQ_SRC):
         for fn in files:
             if fn.endswith(".v"):
                 p = os.path.join(root, fn)
@@ -55,30 +59,74 @@ def grep_forbidden():
     return bad
 
 def run_translator():
-    """regenerates coq/Gen.v from /repo's current sources; returns (ok, log)"""
-    tr = os.path.join(VERIF, "tools", "translate")
-    if not os.path.isdir(tr):
-        return True, "no translator"
-    rc, out = sh(["sh", os.path.join(tr, "run.sh"), REPO, os.path.join(COQ, "Gen.v")], env=GOENV, timeout=600)
-    return rc == 0, out
+    """regenerates coq/Gen*.v from the repository's current sources: every tools/<name>/run.sh is
+    called as `run.sh <repo> <coq dir>`; returns (ok, log)"""
+    os.makedirs(COQ, exist_ok=True)
+    ok, log = True, ""
+    tools = os.path.join(VERIF, "tools")
+    for name in sorted(os.listdir(tools)):
+        rs = os.path.join(tools, name, "run.sh")
+        if os.path.isfile(rs):
+            rc, out = sh(["sh", rs, REPO, COQ], env=GOENV, timeout=900)
+            log += "[%s] rc=%d\n%s\n" % (name, rc, out[-3000:])
+            ok = ok and rc == 0
+    return ok, log
 
 def coq_make(targets=None):
     """full .vo build (incremental). returns (ok, log)"""
+    if RTAG:
+        rc, out = sh(["rsync", "-a", "--exclude", "Gen.v", "--exclude", "Gen.vo", "--exclude", "Gen.glob", "--exclude", ".Makefile.d",
+                      COQ_SRC + "/", COQ + "/"])
+        if rc != 0:
+            return False, out
     if not os.path.exists(os.path.join(COQ, "Makefile")) or \
        os.path.getmtime(os.path.join(COQ, "_CoqProject")) > os.path.getmtime(os.path.join(COQ, "Makefile")):
         rc, out = sh("coq_makefile -f _CoqProject -o Makefile", cwd=COQ)
         if rc != 0:
             return False, out
-    cmd = ["make", "-j16"] + (targets or [])
+    cmd = ["make", "-k", "-j16"] + (targets or [])
     rc, out = sh(cmd, cwd=COQ, timeout=3000)
+    global COQ_FAILED
+    COQ_FAILED = sorted(set(re.findall(r'File "\./([^"]+\.v)", line \d+, characters [\d-]+:\s*\n(?:.*\n)*?Error', out)) |
+                        set(re.findall(r"make.*: \*\*\* \[.*?: ([\w/]+)\.vo\]", out)))
+    COQ_FAILED = [f if f.endswith(".v") else f + ".v" for f in COQ_FAILED]
     return rc == 0, out
+
+COQ_FAILED = []
+
+def coq_deps(vfile):
+    """transitive .v dependencies of coq/<vfile> inside the development (from coqdep)"""
+    rc, out = sh("coqdep -Q . hagall $(find . -name '*.v' | sed 's#^\\./##')", cwd=COQ, timeout=120)
+    deps = {}
+    for line in out.splitlines():
+        if ":" not in line:
+            continue
+        lhs, rhs = line.split(":", 1)
+        tg = [t for t in lhs.split() if t.endswith(".vo")]
+        if not tg:
+            continue
+        deps[tg[0][:-1]] = [d[:-1] for d in rhs.split() if d.endswith(".vo")]
+    seen, todo = set(), [vfile]
+    while todo:
+        f = todo.pop()
+        if f in seen:
+            continue
+        seen.add(f)
+        todo += deps.get(f, [])
+    return seen
+
+def coq_ok_for(vfile):
+    """did every file the given one depends on build in the last coq_make()?"""
+    d = coq_deps(vfile)
+    bad = [f for f in COQ_FAILED if f in d]
+    return not bad, bad
 
 def build_oracle():
     ora = os.path.join(VERIF, "oracle", "oracle")
     newest = 0
-    for fn in os.listdir(COQ):
-        if fn.endswith(".v"):
-            newest = max(newest, os.path.getmtime(os.path.join(COQ, fn)))
+    for fn in os.listdir(COQ_SRC):
+        if fn.endswith(".v") and fn != "Gen.v":
+            newest = max(newest, os.path.getmtime(os.path.join(COQ_SRC, fn)))
     for fn in ("driver.ml", "props.ml", "build.sh"):
         newest = max(newest, os.path.getmtime(os.path.join(VERIF, "oracle", fn)))
     if os.path.exists(ora) and os.path.getmtime(ora) >= newest:
@@ -86,31 +134,56 @@ def build_oracle():
     rc, out = sh(["sh", os.path.join(VERIF, "oracle", "build.sh")], timeout=900)
     return rc == 0 and os.path.exists(ora), out
 
-def write_overlay():
+def hook_target(fn):
+    """hook file name -> path inside the repository.  Convention:
+    <pkg dir with '/' written '__'>__<name>_verif.go  ->  <pkg dir>/zz_verif_<name>.go"""
+    table = {"websocket_verif.go": "websocket/zz_verif_hooks.go", "models_verif.go": "models/zz_verif_hooks.go"}
+    if fn in table:
+        return table[fn]
+    if fn.endswith("_verif.go") and "__" in fn:
+        parts = fn[:-len("_verif.go")].split("__")
+        return "/".join(parts[:-1]) + "/zz_verif_" + parts[-1] + ".go"
+    return None
+
+def write_overlay(extra=None):
     ov = {"Replace": {}}
     hooks = os.path.join(VERIF, "hooks")
-    table = {"websocket_verif.go": "websocket/zz_verif_hooks.go", "models_verif.go": "models/zz_verif_hooks.go"}
     for fn in sorted(os.listdir(hooks)):
-        if fn in table:
-            ov["Replace"][os.path.join(REPO, table[fn])] = os.path.join(hooks, fn)
-    p = os.path.join(WORK, "overlay.json")
+        t = hook_target(fn)
+        if t:
+            ov["Replace"][os.path.join(REPO, t)] = os.path.join(hooks, fn)
+    for k, v in (extra or {}).items():
+        ov["Replace"][k] = v
+    p = os.path.join(WORK, "overlay%s%s.json" % (RTAG, "-x" if extra else ""))
     s = json.dumps(ov, indent=1)
     if not os.path.exists(p) or open(p).read() != s:
         open(p, "w").write(s)
     return p
 
+def harness_dir():
+    """the harness Go module, with go.mod pointing at REPO (a private copy for a scratch tree)"""
+    src = os.path.join(VERIF, "harness")
+    hdir = src
+    if RTAG:
+        hdir = os.path.join(WORK, "harness" + RTAG)
+        rc, out = sh(["rsync", "-a", "--delete", "--exclude", "go.mod", "--exclude", "go.sum", src + "/", hdir + "/"])
+        if rc != 0:
+            return None
+    rc, out = sh(["sh", os.path.join(hdir, "mkmod.sh")], env=dict(GOENV, VERIF_REPO=REPO))
+    return hdir if rc == 0 else None
+
 def build_harness(name="l1", race=False):
     """builds /verif/harness/<name> against /repo's working tree with the verif hooks overlaid"""
     ov = write_overlay()
-    rc, out = sh(["sh", os.path.join(VERIF, "harness", "mkmod.sh")], env=dict(GOENV, VERIF_REPO=REPO))
-    if rc != 0:
-        return False, out, None
-    binp = os.path.join(WORK, name + ("_race" if race else ""))
+    hdir = harness_dir()
+    if hdir is None:
+        return False, "could not prepare the harness module", None
+    binp = os.path.join(WORK, name + RTAG + ("_race" if race else ""))
     cmd = ["go", "build", "-tags", "verif", "-overlay", ov, "-o", binp]
     if race:
         cmd.append("-race")
     cmd.append("./" + name)
-    rc, out = sh(cmd, cwd=os.path.join(VERIF, "harness"), env=GOENV, timeout=1200)
+    rc, out = sh(cmd, cwd=hdir, env=GOENV, timeout=1800)
     return rc == 0, out, binp
 
 def property_file_info(pid):
@@ -137,19 +210,20 @@ def known_findings(pid):
     return [f for f in fs if f.get("status") == "known" and (f.get("property") == pid or pid in f.get("also", []))]
 
 def write_evidence(pid, tier, coverage, assumptions, wall_s, violations, level="proof"):
-    os.makedirs(os.path.join(VERIF, "evidence"), exist_ok=True)
+    edir = os.path.join(VERIF, "evidence") if not RTAG else os.path.join(WORK, "evidence" + RTAG)
+    os.makedirs(edir, exist_ok=True)
     ev = {"property_id": pid, "tier": tier, "seed": seed(), "level": level, "coverage": coverage,
           "assumptions": assumptions, "wall_s": round(wall_s, 2), "violations": violations}
-    tmp = os.path.join(VERIF, "evidence", pid + ".json.tmp")
+    tmp = os.path.join(edir, pid + ".json.tmp")
     json.dump(ev, open(tmp, "w"), indent=1)
-    os.replace(tmp, os.path.join(VERIF, "evidence", pid + ".json"))
+    os.replace(tmp, os.path.join(edir, pid + ".json"))
 
 def violation(pid, replay, no_input=False):
     print("VIOLATION property=%s replay=%s%s" % (pid, replay, " no-failing-input-found" if no_input else ""))
     sys.stdout.flush()
 
 def write_replay(pid, name, obj_or_text):
-    d = os.path.join(WORK, pid)
+    d = os.path.join(WORK, pid + RTAG)
     os.makedirs(d, exist_ok=True)
     p = os.path.join(d, name)
     with open(p, "w") as f:
